@@ -23,6 +23,7 @@ type trailEntry struct {
 	Pos  string
 	Desc string
 	Opq  bool
+	Der  bool
 }
 
 type Frame struct {
@@ -440,7 +441,7 @@ func (it *Interp) fault(s *State, kind string, in ssa.Instruction, detail string
 	f := &Fault{Kind: kind, In: in, Fn: in.Parent(), Detail: detail, Trail: append([]trailEntry(nil), s.trail...), Free: true, Decided: true}
 	for _, t := range s.trail {
 		f.Decided = false
-		if t.Opq {
+		if t.Opq || t.Der {
 			f.Free = false
 		}
 	}
@@ -612,12 +613,12 @@ func (it *Interp) exec(s *State, fr *Frame, in ssa.Instruction) {
 			// partition the path
 			o := s.clone()
 			ofr := o.top()
-			o.trail = append(o.trail, trailEntry{Pos: it.p.InstrPos(x), Desc: it.branchDesc(x, x.Cond, false), Opq: c.Opq})
+			o.trail = append(o.trail, trailEntry{Pos: it.p.InstrPos(x), Desc: it.branchDesc(x, x.Cond, false), Opq: c.Opq, Der: c.Der})
 			it.refine(o, ofr, x.Cond, false)
 			if it.tryJump(o, ofr, fr.block.Succs[1]) {
 				it.work = append(it.work, o)
 			}
-			s.trail = append(s.trail, trailEntry{Pos: it.p.InstrPos(x), Desc: it.branchDesc(x, x.Cond, true), Opq: c.Opq})
+			s.trail = append(s.trail, trailEntry{Pos: it.p.InstrPos(x), Desc: it.branchDesc(x, x.Cond, true), Opq: c.Opq, Der: c.Der})
 			it.refine(s, fr, x.Cond, true)
 			it.jump(s, fr, fr.block.Succs[0])
 			return
@@ -885,7 +886,7 @@ func (it *Interp) unop(s *State, fr *Frame, x *ssa.UnOp) AV {
 		return it.load(s, x, a, x.Type())
 	case token.NOT:
 		if b, ok := a.(BoolV); ok {
-			return BoolV{T: b.F, F: b.T, Opq: b.Opq}
+			return BoolV{T: b.F, F: b.T, Opq: b.Opq, Der: b.Der}
 		}
 	case token.SUB:
 		switch n := a.(type) {
@@ -1083,13 +1084,19 @@ func (it *Interp) binop(s *State, fr *Frame, x *ssa.BinOp, a, b AV) AV {
 		}
 		switch x.Op {
 		case token.EQL, token.NEQ, token.LSS, token.LEQ, token.GTR, token.GEQ:
-			return BoolV{T: true, F: true, Opq: opq}
+			// free: input vs input/constant (independent), or one computed value vs a constant
+			// (its interval is tracked); two computed values may be correlated
+			indep := func(f FloatV) bool { return f.Known || f.Sym > 0 && f.Input }
+			der := !(indep(av) && indep(bv)) && !(av.Known && bv.Sym > 0) && !(bv.Known && av.Sym > 0)
+			return BoolV{T: true, F: true, Opq: opq, Der: der}
 		case token.ADD, token.SUB, token.MUL:
 			// assumption: arithmetic on finite inputs neither overflows nor yields NaN
 			fin := func(f FloatV) bool { return f.Finite || f.Known && !math.IsInf(f.V, 0) && !math.IsNaN(f.V) }
-			return FloatV{Opq: opq, Finite: fin(av) && fin(bv)}
+			it.nextSym++
+			return FloatV{Opq: opq, Finite: fin(av) && fin(bv), Sym: it.nextSym}
 		}
-		return FloatV{Opq: opq}
+		it.nextSym++
+		return FloatV{Opq: opq, Sym: it.nextSym}
 	case BoolV:
 		bv, ok := b.(BoolV)
 		if !ok {
@@ -1110,7 +1117,7 @@ func (it *Interp) binop(s *State, fr *Frame, x *ssa.BinOp, a, b AV) AV {
 				return boolOf(at || bt)
 			}
 		}
-		return BoolV{T: true, F: true, Opq: opq}
+		return BoolV{T: true, F: true, Opq: opq, Der: av.Der || bv.Der}
 	case StrV:
 		bv, ok := b.(StrV)
 		if !ok {
